@@ -13,6 +13,9 @@ import fcntl
 VERIF = os.path.dirname(os.path.dirname(os.path.abspath(__file__)))
 REPO = os.environ.get("VERIF_REPO", "/repo")
 WORK = os.path.join(VERIF, ".work")
+# coverage mode (tools/coverage.sh): the harness is built with -cover over the repository's packages and every shard
+# writes a profile into this directory; says which code of /repo the replayed behaviours reach
+COVER_DIR = os.environ.get("VERIF_COVER_DIR", "")
 SPEC = os.path.join(VERIF, "spec")
 HARNESS = os.path.join(VERIF, "harness")
 GOENV = dict(os.environ, GOFLAGS="-mod=mod", GOPROXY="off", GOSUMDB="off", GOTOOLCHAIN="local")
@@ -95,7 +98,7 @@ def ensure_harness():
 def _ensure_harness():
     """Builds the conformance harness from /repo's current working tree with the verif hooks on.
     Returns (binary path, key). The binary is cached under a key derived from the tree contents."""
-    key = sha(repo_tree_hash(), dir_hash(HARNESS, (".go", ".mod")))[:20]
+    key = sha(repo_tree_hash(), dir_hash(HARNESS, (".go", ".mod")), "cover" if COVER_DIR else "")[:20]
     bindir = os.path.join(WORK, "bin")
     os.makedirs(bindir, exist_ok=True)
     binp = os.path.join(bindir, "harness-%s.test" % key)
@@ -104,7 +107,8 @@ def _ensure_harness():
             return binp, key
         shutil.copy(os.path.join(REPO, "go.sum"), os.path.join(HARNESS, "go.sum"))
         t0 = time.time()
-        rc, out = sh(["go", "test", "-tags", "verif", "-c", "-o", binp + ".tmp", "."], cwd=HARNESS, env=GOENV, timeout=3000)
+        cover = ["-cover", "-coverpkg=github.com/bianjieai/tibc-go/modules/..."] if COVER_DIR else []
+        rc, out = sh(["go", "test", "-tags", "verif"] + cover + ["-c", "-o", binp + ".tmp", "."], cwd=HARNESS, env=GOENV, timeout=3000)
         if rc != 0:
             raise Inconclusive("harness build failed:\n" + out[-6000:])
         os.rename(binp + ".tmp", binp)
@@ -209,7 +213,8 @@ def run_harness(binp, workdir, family, chains, links, behaviours, shards=None, e
         env = dict(os.environ, VERIF_IN=inp, VERIF_OUT=outp)
         env.update(extra_env or {})
         logp = os.path.join(workdir, "harness-%d.log" % s)
-        p = subprocess.Popen([binp, "-test.run", "^TestRun$", "-test.timeout", "%ds" % timeout], cwd=workdir, env=env,
+        cov = ["-test.coverprofile", os.path.join(COVER_DIR, "%s-%d-%d-%d.out" % (family, os.getpid(), int(time.time() * 1000) % 10**9, s))] if COVER_DIR else []
+        p = subprocess.Popen([binp, "-test.run", "^TestRun$", "-test.timeout", "%ds" % timeout] + cov, cwd=workdir, env=env,
                              stdout=open(logp, "w"), stderr=subprocess.STDOUT)
         procs.append((p, outp, logp))
     trace = os.path.join(workdir, "trace.ndjson")
